@@ -50,9 +50,13 @@ def l1_oracle(pid, methods, impl, run, desc):
             run.oracle_fail("a reply table that breaks no rule is rejected", desc)
         if not valid and accepted:
             run.oracle_fail("a reply table breaking a rule is accepted (%s)" % "; ".join(why[:2]), desc)
+    ids = [x for x in d.get("reply_ids", "").split(",") if x]
+    if pid == "C08" and accepted:
+        names = sorted({h for m in methods for h in m.claims()})
+        if len(names) > len(ids):
+            run.oracle_fail("distinct handler names %s get only %d reply ids %s" % (names, len(ids), ids), desc)
     if not (valid and accepted):
         return
-    ids = [x for x in d.get("reply_ids", "").split(",") if x]
     if pid in ("C08", "C07"):
         if ids != order:
             run.oracle_fail("reply id constants %s, expected one per distinct handler name in first-claim order %s" % (ids, order), desc)
